@@ -71,7 +71,7 @@ func c11Worker(args []string) int {
 		var j c11Job
 		json.Unmarshal([]byte(job), &j)
 		sc, ok := scs[j.Scenario]
-		res := c11Result{Scenario: j.Scenario, Executions: map[string]int{}, Outcomes: map[string]int{}, Completed: -1}
+		res := c11Result{Scenario: j.Scenario, Executions: map[string]int{}, Outcomes: map[string]int{}, Observed: map[string]int{}, Completed: -1}
 		if !ok {
 			res.Err = "unknown scenario"
 			b, _ := json.Marshal(res)
@@ -118,6 +118,10 @@ func c11Worker(args []string) int {
 				}
 			}
 			gen(0)
+			for a := range allowed {
+				res.Sequential = append(res.Sequential, trunc(a, 300))
+			}
+			sort.Strings(res.Sequential)
 		}
 		if j.Replay != nil {
 			// replay mode: the recorded schedule is executed 3 times without exploration
@@ -191,6 +195,11 @@ func c11Worker(args []string) int {
 					return
 				}
 				res.Outcomes[outcome]++
+				for _, b := range bad {
+					if strings.HasPrefix(b, "OBS\t") && len(res.Observed) < 64 {
+						res.Observed[trunc(strings.TrimPrefix(b, "OBS\t"), 300)]++
+					}
+				}
 				res.ExtBlocks += ex.ExtBlocks
 				if len(ex.Points) > res.Points {
 					res.Points = len(ex.Points)
